@@ -6,3 +6,5 @@ import BlackIt.Model.SearchSpace
 import BlackIt.Model.Dedup
 import BlackIt.Model.Bandit
 import BlackIt.Model.Halton
+import BlackIt.Model.Calibrator
+import BlackIt.Drv.Cal
